@@ -635,7 +635,20 @@ def m_vac_insert(ex, p, call, k):
     _map_set(ex, p, ptr, mapv, key, call.args[1], call, 'insert')
     cell = ('H', f'entry-val{p.seq("entryval")}', '')
     p.mem[cell] = call.args[1]
+    p.events.append(Event('entry-cell', mapv.name, (key, Ptr(cell, (), True)), None, call.span, call.depth))
     k(p, Ptr(cell, (), True))
+
+
+def m_prim_default(ex, p, call, k):
+    """<u8|..|bool as Default>::default() = 0 / false"""
+    m = re.match(r'^<(\w+) as Default>::default$', call.short)
+    t = m.group(1) if m else ''
+    if t == 'bool':
+        return k(p, z3.BoolVal(False))
+    w = int_width(t)
+    if w:
+        return k(p, z3.BitVecVal(0, w))
+    return NotImplemented
 
 
 def m_int_try_from(ex, p, call, k):
@@ -690,9 +703,12 @@ def m_entry_or_insert(ex, p, call, k):
     ptr, key = e.fields[0].fields[0], e.fields[0].fields[1]
 
     def put(q, val):
-        _map_set(ex, q, ptr, _map_of(ex, q, ptr), key, val, call, 'insert')
+        mv = _map_of(ex, q, ptr)
+        _map_set(ex, q, ptr, mv, key, val, call, 'insert')
         cell = ('H', f'entry-val{q.seq("entryval")}', '')
         q.mem[cell] = val
+        # the returned `&mut V` aliases the stored value: later writes through it are the entry's final value
+        q.events.append(Event('entry-cell', mv.name, (key, Ptr(cell, (), True)), None, call.span, call.depth))
         k(q, Ptr(cell, (), True))
     if meth == 'or_insert':
         return put(p, call.args[1])
@@ -790,6 +806,7 @@ GLOBAL_MODELS = [
     (R(r'OccupiedEntry::(remove_entry|remove)$'), m_occ_remove_entry),
     (R(r'VacantEntry::insert$'), m_vac_insert),
     (R(r'Entry::and_modify$'), m_entry_and_modify),
+    (R(r'^<(u8|u16|u32|u64|u128|usize|i8|i16|i32|i64|i128|isize|bool) as Default>::default$'), m_prim_default),
     (R(r'^<(u8|u16|u32|u64|u128|usize) as Try(From|Into)>::try_(from|into)$'), m_int_try_from),
     (R(r'Entry::(or_insert|or_insert_with|or_default)$'), m_entry_or_insert),
     (R(r'HashMap::insert$'), m_map_insert),
